@@ -13,16 +13,6 @@ number of rounds (each `rGet` that succeeds starts a new round) and any moment o
 -/
 namespace IterQueue
 
-/-- the value multiset of a log -/
-def vals (l : List (Nat × Nat)) : List Nat := l.map Prod.snd
-
-/-- the state in which a round starts: everything as in `init` except clock, stop flag, round
-    number and the history of finished rounds -/
-def Fresh (c : Cfg) (s : State) : Prop :=
-  s.sups = List.replicate c.m freshSup ∧ s.cons = List.replicate c.n freshCon ∧ s.queue = [] ∧
-  s.spare = c.m ∧ s.applied = 0 ∧ s.used = 0 ∧ s.lock = false ∧ s.rpc = .off ∧ s.extraOut = false ∧
-  s.putLog = [] ∧ s.gotLog = []
-
 /-- **Exactly once.**  At every moment of every execution: what the consumers have received in
     this round, together with what is still in the queue, is exactly (as a multiset) what the
     suppliers have put in this round — nothing else is ever returned, nothing is lost or duplicated,
@@ -235,6 +225,16 @@ theorem C17_all_finish (c : Cfg) (hm : 1 ≤ c.m) (hn : 1 ≤ c.n) (s : State) (
   cases step_sound c s s' _ hs with
   | rStartOk _ hall _ => exact hall
   | rStartFail _ hall _ => exact hall
+
+/-- **Every consumer finishes — bound.**  Once all suppliers have ended, in *any* continuation
+    without a `renew` action (any interleaving with stop requests, clock ticks, retries) the
+    consumers make at most `mu s` real moves, and the suppliers stay ended (so the progress clause
+    of `C17_all_finish` keeps applying). -/
+theorem C17_all_finish_bound (c : Cfg) (s s' : State) (as : List Act)
+    (hsup : ∀ a ∈ s.sups, a.pc = .ended) (hrun : Core.run (step c) s as = some s')
+    (hnr : ∀ a ∈ as, isRenewAct a = false) :
+    as.countP isConsMove + mu s' ≤ mu s ∧ (∀ a ∈ s'.sups, a.pc = .ended) :=
+  moves_le_mu_ended c as s s' hrun hsup hnr
 
 /-- non-vacuity of `C17_all_finish`: one supplier has put a value and ended, two consumers are inside
     `get`; 54 units of work are left -/
